@@ -144,6 +144,44 @@ impl BigUint {
             Some(&top) => (self.d.len() as u64 - 1) * 32 + (32 - top.leading_zeros() as u64),
         }
     }
+    /// divide in place by a small number, returning the remainder
+    pub fn div_small(&mut self, m: u32) -> u32 {
+        let mut rem: u64 = 0;
+        for limb in self.d.iter_mut().rev() {
+            let cur = (rem << 32) | *limb as u64;
+            *limb = (cur / m as u64) as u32;
+            rem = cur % m as u64;
+        }
+        self.trim();
+        rem as u32
+    }
+    pub fn to_decimal(&self) -> String {
+        if self.is_zero() {
+            return "0".into();
+        }
+        let mut t = self.clone();
+        let mut chunks = Vec::new();
+        while !t.is_zero() {
+            chunks.push(t.div_small(1_000_000_000));
+        }
+        let mut s = format!("{}", chunks.pop().unwrap());
+        while let Some(c) = chunks.pop() {
+            s.push_str(&format!("{c:09}"));
+        }
+        s
+    }
+    pub fn pow5(e: u32) -> BigUint {
+        let mut b = BigUint::from_u64(1);
+        let mut rem = e;
+        while rem >= 13 {
+            b.mul_small(1_220_703_125);
+            rem -= 13;
+        }
+        if rem > 0 {
+            b.mul_small(5u32.pow(rem));
+        }
+        b
+    }
     pub fn to_u128(&self) -> Option<u128> {
         if self.d.len() > 4 {
             return None;
@@ -255,6 +293,32 @@ pub fn decimal_to_f64(digits: &str, exp10: i64) -> ExactF64 {
     }
 }
 
+/// Exact decimal expansion of `m × 2^e` as (digits, exp10): value = digits × 10^exp10.
+pub fn binary_to_decimal(m: u128, e: i64) -> (String, i64) {
+    if m == 0 {
+        return ("0".into(), 0);
+    }
+    let b = BigUint::from_u128(m);
+    if e >= 0 {
+        (b.shl(e as u32).to_decimal(), 0)
+    } else {
+        // m / 2^k = m × 5^k / 10^k
+        let k = (-e) as u32;
+        (b.mul(&BigUint::pow5(k)).to_decimal(), -(k as i64))
+    }
+}
+
+/// (mantissa, exponent) with value = mantissa × 2^exponent for a finite non-negative pattern
+pub fn decode_f64_bits(bits: u64) -> (u64, i64) {
+    let exp = (bits >> 52) & 0x7FF;
+    let frac = bits & ((1u64 << 52) - 1);
+    if exp == 0 {
+        (frac, -1074)
+    } else {
+        (frac | (1u64 << 52), exp as i64 - 1075)
+    }
+}
+
 #[cfg(test)]
 mod tests {
     use super::*;
@@ -287,5 +351,11 @@ mod tests {
         check("22250738585072011", -324);
         check("1", 400);
         check("1", -400);
+        // exact expansion round trip
+        for x in [1.0f64, 0.1, 5e-324, f64::MAX, 123456.789e100, 2.2250738585072014e-308] {
+            let (m, e) = decode_f64_bits(x.to_bits());
+            let (d, e10) = binary_to_decimal(m as u128, e);
+            assert_eq!(decimal_to_f64(&d, e10), ExactF64::Finite(x.to_bits()));
+        }
     }
 }
